@@ -224,6 +224,40 @@ def run_events(args):
                functions=sorted({"%s:%s" % (n["op"].get("line", ("?", 0))[0], n["op"]["kind"]) for th in threads for n in th["nodes"].values()}))
     F = enc.final()
     done = enc.done()
+    if args.pin:
+        order = []
+        seen = {}
+        for t_ in [int(x) for x in args.pin.split(",")]:
+            order.append((t_, seen.get(t_, 0)))
+            seen[t_] = seen.get(t_, 0) + 1
+        cons = []
+        for i in range(enc.k):
+            S_ = enc.S[i]
+            def in_item(t, j):
+                ids = [nid for nid, o in threads[t]["item_of"].items() if o == j]
+                return z3.Or(*[S_.pc[t] == E.N(nid) for nid in ids]) if ids else z3.BoolVal(False)
+            def finished(u, m_):
+                return z3.Not(z3.Or(*[in_item(u, mm) for mm in range(m_ + 1)]))
+            for pos, (t, j) in enumerate(order):
+                before = order[:pos]
+                if before:
+                    cons.append(z3.Implies(z3.And(enc.sched[i] == E.N(t), in_item(t, j)), z3.And(*[finished(u, m_) for (u, m_) in before])))
+            for t in range(len(threads)):
+                n_t = seen.get(t, 0)
+                for j in range(n_t, len(programs[t])):
+                    cons.append(z3.Implies(enc.sched[i] == E.N(t), z3.Not(in_item(t, j))))
+        r, m = enc.check(done, *cons, timeout_s=args.timeout)
+        if r != z3.sat:
+            out.update(verdict="pin-unsat", detail=str(r))
+            return out
+        ev = lambda x: m.eval(x, model_completion=True)
+        sig = consts["%s::%s" % (flavor, "SIGNALED" if flavor == "auto" else "IS_SET")]
+        out.update(verdict="pinned", final=dict(
+            tries={"%d.%d" % key: ev(F.res[o]).as_long() for key, o in opids.items() if key[0] != "w" and kinds[o][0] == "try"},
+            status=[next((ev(F.status[o]).as_long() for o, (kk, aa) in enumerate(kinds) if kk == "wait" and aa == a), 0) for a in range(4)],
+            woken_mask=ev(F.woken).as_long(), live_wakers=ev(F.cnt["clones"]).as_long() - ev(F.cnt["wdrops"]).as_long(),
+            stored=(ev(F.curL["state"]).as_long() & sig) != 0, bad=ev(F.bad).as_long()))
+        return out
     tq = time.time()
     r, m = enc.check(done, timeout_s=args.timeout)
     out["queries"].append(dict(q="witness: a complete run exists", result=str(r), s=round(time.time() - tq, 2)))
